@@ -295,6 +295,16 @@ def yaw_case(arg):
         mgr.add_frame_result(1000, frame_gt(G, ego=ego), E, crit, pfc)
         an = PerceptionAnalyzer3D(ec)
         an.add(mgr.frame_results)
+        # sorted views are views: asking for them leaves the table (and every later analysis) alone
+        snap = an.df.copy()
+        s1 = an.sortby(["yaw", "x"], ascending=True)
+        s2 = an.sortby("confidence")
+        sort_problem = None
+        if not an.df.equals(snap) or list(an.df.index) != list(snap.index):
+            sort_problem = "sortby() without a table argument reordered / changed the analyzer's own table"
+        elif len(s1) != len(snap) or len(s2) != len(snap) or not s1["yaw"].dropna().is_monotonic_increasing or not s2["confidence"].dropna().is_monotonic_decreasing:
+            sort_problem = "sortby() did not return the table sorted by the requested column"
+        info["sortby_problem"] = sort_problem
         gt_df, est_df = an.get_pair_results(an.df[an.df["status"].isin(["TP", "FP", "TN"])])
         err = an.calculate_error("yaw")
         if gt_df is None or len(err) != len(pairs_):
@@ -308,6 +318,32 @@ def yaw_case(arg):
             dd = abs(math.atan2(math.sin(yg - ye), math.cos(yg - ye)))
             w4 = int(round((1 - dd / math.pi) * 1e4))
             evs.append(dict(a=int(round(yg * 1e4)) % 62832, b=int(round(ye * 1e4)) % 62832, w4=w4, w4r=w4, e=int(round(float(e_) * 1e4)), tolw=1, tole=1))
+        # the field analyzer keeps its own pair-wise error columns: the same law for its yaw error (both rows of a pair, opposite signs)
+        from perception_eval.tool.perception_analyzer3dfield import PerceptionAnalyzer3DField
+
+        fa = PerceptionAnalyzer3DField(ec)
+        fa.add(mgr.frame_results)
+        fa.add_additional_column()
+        fa.add_error_columns()
+        nfield = 0
+        for idx0, item in fa.df.groupby(level=0):
+            kinds = list(item.index.get_level_values(1))
+            if "ground_truth" not in kinds or "estimation" not in kinds:
+                continue
+            grow, erow = item.xs("ground_truth", level=1).iloc[0], item.xs("estimation", level=1).iloc[0]
+            if np.isnan(grow["error_yaw"]):
+                continue
+            i = int(round((float(grow["x"]) + 40.0) / 15.0))
+            yg, ye = pairs_[i]
+            dd = abs(math.atan2(math.sin(yg - ye), math.cos(yg - ye)))
+            w4 = int(round((1 - dd / math.pi) * 1e4))
+            for val in (float(grow["error_yaw"]), float(erow["error_yaw"])):
+                evs.append(dict(a=int(round(yg * 1e4)) % 62832, b=int(round(ye * 1e4)) % 62832, w4=w4, w4r=w4, e=int(round(val * 1e4)), tolw=1, tole=1))
+            if abs(float(grow["error_yaw"]) + float(erow["error_yaw"])) > 1e-9:
+                info["field_problem"] = "field analyzer: the two rows of pair %d carry yaw errors %r and %r (not opposite)" % (i, float(grow["error_yaw"]), float(erow["error_yaw"]))
+            nfield += 1
+        if nfield != len(pairs_):
+            info["field_problem"] = "field analyzer: %d pairs with a yaw error for %d matched pairs" % (nfield, len(pairs_))
         summ = an.summarize_error()
         row = summ.loc[("ALL", "yaw")]
         want = dict(average=float(np.average(err)), rms=float(np.sqrt(np.square(err).mean())), std=float(np.std(err)), max=float(np.max(np.abs(err))), min=float(np.min(np.abs(err))))
@@ -335,6 +371,10 @@ def yaw_traces(ctx):
             continue
         if inf.get("summary_mismatch"):
             ctx.violation("yaw-error-summary", "summaries %s of the yaw error differ from their definitions" % inf["summary_mismatch"], inf)
+        if inf.get("field_problem"):
+            ctx.violation("yaw-error-field-analyzer", inf["field_problem"], inf)
+        if inf.get("sortby_problem") and ctx.pid == "C19":
+            ctx.violation("sortby-not-a-view", inf["sortby_problem"], inf)
         for ev in e_:
             tid += 1
             evs.append(dict(ev, tid=tid))
